@@ -6,3 +6,4 @@ pub mod merkle_ref;
 pub mod poly_ref;
 #[cfg(not(pv_core))]
 pub mod poseidon_ref;
+pub mod sat;
